@@ -52,7 +52,7 @@ def gen(seed: int, tier: str) -> dict[str, Any]:
             g = "tiny"      # an operation placed some iterations into its instant must stay the last one of that instant
         t += {"zero": 0.0, "tiny": 0.01, "half": ref / 2, "near-": ref - 0.01, "eq": ref, "near+": ref + 0.01,
               "far": ref * 2.5}[g]
-        k = rng.choices(["set", "set_skip", "init", "read", "ext_write"], [8, 4, 1, 4, 1])[0]
+        k = rng.choices(["set", "set_skip", "init", "read", "ext_write", "readd"], [8, 4, 1, 4, 1, 0.8 if c else 0])[0]
         op: dict[str, Any] = {"t": round(t, 6), "op": k, "g": g}
         if g == "eq":
             # exactly one cooldown after the previous operation - the instant the cooldown timer of a telegram sent then
@@ -132,6 +132,12 @@ def run(plan: dict[str, Any]) -> dict[str, Any]:
                 stub.deliver(W.cemi_ldata(W.L_DATA_IND, 0x1108, GA, tpci_apci=W.gv_read()), "read")
             elif k == "ext_write":
                 stub.deliver(W.cemi_ldata(W.L_DATA_IND, 0x1108, GA, tpci_apci=W.gv_write(bytes((op["v"],)))), "ext")
+            elif k == "readd":
+                # the device is removed from the registry and added again (as XKNX.stop()/start() does with its tasks): what
+                # was pending is gone, but from here on it is the same sensor with the same cooldown
+                xknx.devices.async_remove(dev)
+                xknx.devices.async_add(dev)
+                R.extra_faults["device_removed_and_added_again"] += 1
 
         def run_now(coro):
             try:
@@ -226,9 +232,16 @@ def run(plan: dict[str, Any]) -> dict[str, Any]:
                 elif resp[0][1] != cur:
                     R.violate("C41.read", "read-answered-with-stale-value", f"read at {op['t']}: answered {resp[0][1]}, most recent value {cur}")
     # ---- cooldown spacing (only without periodic sending)
+    readds = [t0 + o["t"] for o in ops if o["op"] == "readd"]
+
+    def readd_in(a, b):
+        return any(a - 1e-6 <= tr <= b + 1e-6 for tr in readds)
+
     writes = [(tp, pl) for (tp, kind, pl) in puts if kind == "write"]
     if c and not p:
         for (t1, p1), (t2, p2) in zip(writes, writes[1:]):
+            if readd_in(t1, t2):
+                continue      # removal drops the running cooldown: spacing is judged within one registration only
             if t2 - t1 < c - 1e-9:
                 R.violate("C41.cooldown", "writes-closer-than-cooldown",
                           f"value telegrams queued at {t1 - t0:.6f} ({p1}) and {t2 - t0:.6f} ({p2}), cooldown {c}")
@@ -268,9 +281,11 @@ def run(plan: dict[str, Any]) -> dict[str, Any]:
     if last["op"] in ("set", "set_skip") and effective and eff_last_i == len(ops) - 1:
         t_set, v = effective[-1]
         deadline = t_set + c + 1e-6
+        if readd_in(t_set - c - 0.02, deadline):
+            last = {"op": "unjudged"}       # a removal around it may have dropped the pending value
         sent = [(tp, kind) for (tp, kind, pl) in puts if pl == v and t_set - eps <= tp <= deadline]
         # initialize_value() documents its value as "treated as if it had been sent": it counts as the bus value
-        if not sent and v not in deemed_values(deadline + 0.02) and not ext_near(t_set):
+        if last["op"] != "unjudged" and not sent and v not in deemed_values(deadline + 0.02) and not ext_near(t_set):
             R.violate("C41.eventual-delivery", "last-set-value-never-sent",
                       f"set({v}) at {last['t']} (cooldown {c}): nothing with that payload queued by {deadline - t0:.6f}; "
                       f"queued {[(round(tp - t0, 6), kind, pl) for (tp, kind, pl) in puts][-5:]}, bus {bus[-3:]}")
@@ -283,6 +298,8 @@ def run(plan: dict[str, Any]) -> dict[str, Any]:
             nxt = t0 + ops[i + 1]["t"] if i + 1 < len(ops) else None
             if nxt is not None and nxt <= t_set + c + 0.02:
                 continue   # a later operation may legitimately supersede it
+            if readd_in(t_set - c - 0.02, t_set + c + 0.02):
+                continue
             got = [pl for (tp, kind, pl) in puts if pl == op["v"] and t_set - eps <= tp <= t_set + c + 1e-6]
             if not got and op["v"] not in deemed_values(t_set + c + 0.02) and not ext_near(t_set):
                 R.violate("C41.skip-unchanged", "differing-value-swallowed",
